@@ -152,7 +152,8 @@ theorem exD_lookup : exD.indexOfName [0x2e, 0x61] = some 2 := by decide +kernel
 
   ELF32 LSB, `e_type` = ET_CORE, one SHT_NULL section header whose `sh_info` carries the segment count
   (PN_XNUM used although 2 would fit), `e_shnum` = 1, `e_shstrndx` = SHN_UNDEF, a PT_NOTE and a PT_LOAD
-  segment.  Outside `wfZ` (no name table). -/
+  segment.  It has no name table; its one section is nameless: inside `wf` (and `wfZ`) since the repair
+  of the finding `no-name-table` (`exC_wf`). -/
 
 def exC : ElfDesc :=
   { cls := 32, le := true, mclass := "default", solaris := false, core := true,
@@ -203,16 +204,34 @@ theorem exC_extnumOnly : Spec.C01.extnumOnly exEnv exC = true := by
   simp only [hdec, exC_cfgOk, h1, h3, h4]
   simp [exC, typeIn, fieldNat, Val.getField, Fields.getR, Fields.get?]
 
-/-- … and it is outside `wfZ`: it has no name table -/
-theorem exC_not_wfZ : exC.wfZ exEnv = false := by
-  cases hw : exC.wfZ exEnv with
-  | false => rfl
-  | true =>
-    exfalso
-    have h := (wfZ_facts hw).names
-    have : exC.namesOk = false := by decide +kernel
-    rw [this] at h
-    cases h
+theorem exC_decHdr0 : exC.decHdr exEnv 0
+    = some (.record [("sh_name", .int 0), ("sh_type", .str "SHT_NULL"), ("sh_flags", .int 0), ("sh_addr", .int 0),
+        ("sh_offset", .int 0), ("sh_size", .int 1), ("sh_link", .int 0), ("sh_info", .int 2), ("sh_addralign", .int 0),
+        ("sh_entsize", .int 0)]) := by
+  simp [ElfDesc.decHdr, ElfDesc.S, ElfDesc.cfg, exC, elfStructs, st, mkFields, f, enumOf, SecDesc.raw, Con.decodeRaw,
+    ConFields.decodeRaw, Fields.get?, Fields.set, exEnv, shTypeTable, Except.toOption, bind, Except.bind, pure, Except.pure]
+
+/-- … and it is a well-formed description: a file without a name table (`e_shstrndx` = SHN_UNDEF),
+    its one section nameless — the general theorems (`*_exact`) apply to it as well -/
+theorem exC_wf : exC.wf exEnv = true := by
+  have hn : exC.sections.length = 1 := rfl
+  have hm : exC.segments.length = 2 := rfl
+  have h1 : exC.escapesOk = true := by decide +kernel
+  have h2 : exC.namesOk = true := by decide +kernel
+  have h3 : exC.S.Elf_Shdr.sizeof = some 40 := dS_shdr_sizeof exC
+  have h4 : exC.S.Elf_Phdr.sizeof = some 32 := by
+    simp [ElfDesc.S, ElfDesc.cfg, exC, elfStructs, st, mkFields, f, enumOf, Con.sizeof, ConFields.sizeof]
+  have h5 : (List.range 1).all (fun i => exC.secOk exEnv 4 i) = true := by
+    have hsec : exC.sections[0]? = some ⟨[], [("sh_type", .int 0), ("sh_flags", .int 0), ("sh_addr", .int 0), ("sh_offset", .int 0),
+      ("sh_size", .int 1), ("sh_link", .int 0), ("sh_info", .int 2), ("sh_addralign", .int 0), ("sh_entsize", .int 0)], none, 0⟩ := rfl
+    simp [List.range, List.range.loop, ElfDesc.secOk, exC_decHdr0, hsec, fieldNat, typeIn, Val.getField, Fields.getR, Fields.get?]
+  have hs : sortRegions exCRegs = exCRegs := List.mergeSort_of_pairwise (by simp [exCRegs])
+  have h6 : regionsDisjoint exCRegs = true := by decide +kernel
+  have h8 : machineClasses.contains exC.mclass = true := by decide +kernel
+  have h9 : exC.shstrndx = 0 := rfl
+  unfold ElfDesc.wf
+  simp only [exC_regions, hs, exC_cfgOk, hn, hm, h1, h2, h3, h4, h5, h6, h8, h9]
+  decide
 
 /-- laying out disjoint regions gives a layout (the part of `assemble_layout` that needs no `wfZ`) -/
 theorem layout_of_disjoint {d : ElfDesc} {rs : List (Nat × Bytes)} {tail : Nat} {bytes : Bytes}
